@@ -14,11 +14,17 @@ type C16Case struct {
 	Indent int `json:"indent"`
 	// Muts: mutations of (nested) containers after the first call; FormatString is then called again
 	Muts []CloneMut `json:"muts,omitempty"`
+	// Share: the root holds the same non-empty container content twice and is built with ONE instance at
+	// both places (an acyclic structure in which a container is reachable along two paths)
+	Share bool `json:"share,omitempty"`
 }
 
 func GenC16(t *rapid.T) *C16Case {
 	ind := []int{-3, -1, -1, 0, 0, 1, 2, 2, 3, 4, 4, 5, 6, 7, 8, 9, 10, 10, 11, 11, 14, -1000, 1 << 40}[drawInt(t, 0, 22, "indent")]
 	c := &C16Case{Root: genTreeCase(t), Indent: ind}
+	if oneIn(t, 8, "share") {
+		c.Root, c.Share = withSharedChild(t, c.Root)
+	}
 	if oneIn(t, 4, "remutate") {
 		c.Muts = genNestedMuts(t)
 	}
@@ -88,7 +94,10 @@ func CheckC16(c *C16Case, st *Stats) error {
 	if root.K != KList && root.K != KObject {
 		return nil
 	}
-	orig := Build(root)
+	orig := buildMaybeShared(root, c.Share)
+	if c.Share {
+		st.Count("shared_instance")
+	}
 	before, err := TakeIdentSnap(orig)
 	if err != nil {
 		return err
@@ -167,7 +176,7 @@ func CheckC16(c *C16Case, st *Stats) error {
 
 func init() {
 	Register("C16",
-		"rapid-generated value trees (as C02) x indent drawn from {-1000,-3,-1,0..10,11,14,2^40} weighted to the boundaries. Inside 0..10 the output must be non-empty, accepted by the strict scanner, denote the generated tree, equal byte-for-byte the canonical layout re-created from its own raw tokens, consist of exactly the raw tokens of String() (members matched by key), and be read back by the library as the same container with the same kinds; outside it must panic; container unchanged. Non-trivial = indent outside the range, or nesting >= 2 with an empty container or a string/key that needs escaping. Distinct = distinct FNV-64a hash of the case JSON.",
+		"rapid-generated value trees (as C02, shared instances and 1001-1500 nesting levels included) x indent drawn from {-1000,-3,-1,0..10,11,14,2^40} weighted to the boundaries. Inside 0..10 the output must be non-empty, accepted by the strict scanner, denote the generated tree, equal byte-for-byte the canonical layout re-created from its own raw tokens, consist of exactly the raw tokens of String() (members matched by key), and be read back by the library as the same container with the same kinds; outside it must panic; container unchanged. Non-trivial = indent outside the range, or nesting >= 2 with an empty container or a string/key that needs escaping. Distinct = distinct FNV-64a hash of the case JSON.",
 		GenC16, CheckC16)
 }
 
